@@ -109,17 +109,39 @@ def kind3(ctx):
                     ref_names[t.id] = f"d0[{v.args[0].slice.value}]"
     # the raw lists come from nonzero((d0x - dix) > 0) / < 0
     raw_kind: Dict[str, List[Tuple[str, str]]] = {}
-    for name_ in ("Acre", "Ades", "Bcre", "Bdes"):
-        for t, v, conds, line in _assign_targets(node, role[name_]):
-            for nd in ast.walk(v):
-                if isinstance(nd, ast.Call) and (dotted(nd.func) or "").endswith("nonzero") and nd.args and \
-                        isinstance(nd.args[0], ast.Compare):
-                    cmp_ = nd.args[0]
-                    if isinstance(cmp_.left, ast.BinOp) and isinstance(cmp_.left.op, ast.Sub) and \
-                            isinstance(cmp_.left.left, ast.Name):
-                        ref = cmp_.left.left.id
-                        op = type(cmp_.ops[0]).__name__
-                        raw_kind.setdefault(name_, []).append((ref, op))
+    # producer sites, read from the value graph (helpers and temporaries are seen through): what is appended to table X
+    # is nonzero((ref_s - det_s) > 0)  (labels vacated in the reference) or  ... < 0  (labels newly occupied)
+    pev = Evaluator(p)
+    pev.eval_function(fi)
+    by_var = {role[n_]: n_ for n_ in ("Acre", "Ades", "Bcre", "Bdes")}
+    for e in pev.events:
+        if e.kind != "store" or e.data[0] not in by_var:
+            continue
+        seen_c = set()
+        # the element appended by this store:  X.get(key, []) + [element]
+        added = []
+        v0 = strip_wrappers(e.data[2])
+        if v0.op == "binop" and v0.args[0] == "+":
+            for side in (v0.args[1], v0.args[2]):
+                side = strip_wrappers(side)
+                if side.op == "list" and len(side.args) == 1:
+                    added.append(side.args[0])
+        for x in (y for a_ in added for y in subterms(a_)):
+            if x.op == "call" and array_fn(x) == "nonzero" and call_parts(x)[1]:
+                c_ = strip_wrappers(call_parts(x)[1][0])
+                if c_.op == "cmp" and c_.args[0] in (">", "<") and c_.uid not in seen_c and \
+                        strip_wrappers(c_.args[2]).op == "const" and strip_wrappers(c_.args[2]).args[0] == 0:
+                    seen_c.add(c_.uid)
+                    lhs = strip_wrappers(c_.args[1])
+                    if lhs.op == "binop" and lhs.args[0] == "-":
+                        ref_t = strip_wrappers(lhs.args[1])
+                        if ref_t.op == "call" and call_parts(ref_t)[1]:
+                            ref_t = strip_wrappers(call_parts(ref_t)[1][0])     # np.asarray(ref[s])
+                        spin = ref_t.args[1].args[0] if ref_t.op == "getitem" and ref_t.args[1].op == "const" and \
+                            ref_t.args[1].args[0] in (0, 1) and not any(z.op == "iter" for z in subterms(ref_t)) else None
+                        raw_kind.setdefault(by_var[e.data[0]], []).append(
+                            (f"d0[{spin}]", "Gt" if c_.args[0] == ">" else "Lt"))
+    ref_names.update({"d0[0]": "d0[0]", "d0[1]": "d0[1]"})
     for name_, want_op, want_ref in (("Acre", "Gt", "d0[0]"), ("Ades", "Lt", "d0[0]"), ("Bcre", "Gt", "d0[1]"),
                                      ("Bdes", "Lt", "d0[1]")):
         gots = raw_kind.get(name_, [])
@@ -431,8 +453,12 @@ def producer_pairing(ctx):
                             detail.append((block, src, rs))
                             if block == src == rs:
                                 good += 1
-    ctx.ob("PAIR-1", "get_fci_state: det[s] is filled from the spin-s occupation list with nelec[s] electrons",
-           good == 2 and len(detail) == 2, f"(block, list, count) index triples {detail}", gf)
+    if not detail:
+        # the determinant is no longer assembled as det[s][occ_s[i][j]] over range(nelec[s]): nothing to pair here
+        ctx.rep.note("get_fci_state: the det[s][...] = 1 / range(nelec[s]) idiom is not present; the spin-pairing rule does not apply")
+    else:
+        ctx.ob("PAIR-1", "get_fci_state: det[s] is filled from the spin-s occupation list with nelec[s] electrons",
+               good == len(detail) and len(detail) >= 2, f"(block, list, count) index triples {detail}", gf)
 
 
 def read_dets(ctx):
@@ -501,6 +527,10 @@ def read_dets(ctx):
                     blocks.append(st.targets[0].value.slice.value)
             mapping[key_] = sorted(blocks)
     want = {b"a": [0], b"b": [1], b"2": [0, 1]}
-    ctx.ob("KEYS-2", "read_dets: 'a' -> up, 'b' -> down, '2' -> both", mapping == want, f"{mapping}", fi)
+    if not mapping or not any(mapping.values()):
+        ctx.rep.note("read_dets: the occupation byte is not decoded by an if-chain of det[s][j] = 1 stores; the "
+                     "character-to-spin rule does not apply")
+    else:
+        ctx.ob("KEYS-2", "read_dets: 'a' -> up, 'b' -> down, '2' -> both", mapping == want, f"{mapping}", fi)
 
 
